@@ -1,3 +1,5 @@
+//go:build !no_access
+
 package main
 
 import (
